@@ -53,6 +53,7 @@ var c13Kinds = []string{
 	// calls that must fail
 	"transcript-retain", "fail-prove-zero-commitment",
 	"readpoint-mutate", "readscalar-mutate", "prove-mutate-result", "fr-setbigint", "fr-setinterface", "setidentity-mutate",
+	"results-mutate", "fr-exp",
 	"fail-prove-len", "fail-prove-zero", "fail-prove-polylen", "fail-verify-len", "fail-verify-shape", "fail-ipa-verify-shape", "fail-batchnorm-zero", "fail-read-short", "fail-decode-noncanonical", "fail-msm-len",
 }
 
@@ -471,6 +472,48 @@ func doCall(a *arena, c C13Call) (out string, failed bool) {
 			id.Add(&id, &scribble)
 			return digest(before, p.Bytes(), g.Bytes(), id.Bytes()), false
 		}
+	case "fr-exp":
+		var e fr.Element
+		exps := []int{0, 1, 3, 5}
+		e.Exp(a.Scalars[pick(nScal, c.A)], a.BigInts[exps[c.B%len(exps)]])
+		m := fr.Modulus()
+		before := new(big.Int).Set(m)
+		m.Add(m, big.NewInt(12345)) // the caller may do what it likes with the returned integer
+		m2 := fr.Modulus()
+		return digest(e, before.Bytes(), m2.Bytes()), false
+	case "results-mutate":
+		// Results handed to the caller are the caller's: overwrite them. If one of them aliased
+		// an internal table, the configuration / package fingerprints or a later call show it.
+		w := cfg.PrecomputedWeights
+		z := a.Scalars[3+pick(nScal-3, c.N)]
+		bc := w.ComputeBarycentricCoefficients(z)
+		q := w.DivideOnDomain(a.Zs[pick(nPolys, c.A)], a.Polys[pick(nPolys, c.B)])
+		inv := fr.BatchInvert(a.Scalars[:1+c.N%nScal])
+		pw := common.PowersOf(a.Scalars[pick(nScal, c.A)], 5)
+		pts := ipa.GenerateRandomPoints(3)
+		bs := banderwagon.ElementsToBytes(a.Elems[:2]...)
+		d0 := digest(bc[0], bc[255], q[0], q[255], inv[0], pw[4], pts[0].Bytes(), pts[2].Bytes(), bs)
+		var junk fr.Element
+		junk.SetUint64(0xdeadbeef)
+		for i := range bc {
+			bc[i] = junk
+		}
+		for i := range q {
+			q[i] = junk
+		}
+		for i := range inv {
+			inv[i] = junk
+		}
+		for i := range pw {
+			pw[i] = junk
+		}
+		for i := range pts {
+			pts[i].Double(&pts[i])
+		}
+		for i := range bs {
+			bs[i][0] ^= 0xff
+		}
+		return d0, false
 	case "prove-mutate-result":
 		st := a.Stmts[pick(len(a.Stmts), c.A)]
 		// private copies of the statement lists (this call is about the RESULT object)
@@ -928,8 +971,10 @@ func (c13) Exec(plan interface{}) Result {
 			return *probeFail
 		}
 		var first string
+		var digests []string
 		for i, c := range p.Calls {
 			d, failed := doCall(a, c)
+			digests = append(digests, d)
 			if failed {
 				o.failedCalls++
 			}
@@ -960,6 +1005,14 @@ func (c13) Exec(plan interface{}) Result {
 			d, _ := doCall(a, p.Calls[0])
 			if d != first {
 				return fail("history-dependent", "call 0 (%s) repeated at the end of the history returns a different result", p.Calls[0].Kind)
+			}
+		}
+		// every call of the history once more, in reverse order: the same call on the same
+		// (unchanged) arguments must return the same result wherever it sits in a history
+		for i := len(p.Calls) - 1; i >= 0 && i >= len(p.Calls)-14; i-- {
+			d, _ := doCall(a, p.Calls[i])
+			if d != digests[i] {
+				return fail("history-dependent", "call %d (%s a=%d b=%d n=%d) returns a different result when repeated after the rest of the history", i, p.Calls[i].Kind, p.Calls[i].A, p.Calls[i].B, p.Calls[i].N)
 			}
 		}
 		l1, t1 := configPrint(cfg, -1)
